@@ -295,6 +295,12 @@ def run_sympy(ctx, rng, n):
             for t in s["terms"]:
                 t[1] = [coef_json(Fraction(float(rng.random() * 10.0 ** int(rng.integers(-6, 7)) * (-1) ** int(rng.integers(0, 2)))))
                         for _ in t[1]]
+        if kind == "int" and i % 3 == 1:
+            # 64-bit integers that no double represents: the export and the way back are exact (seeded change C16-8)
+            for t in s["terms"]:
+                t[1] = [int(rng.integers(2 ** 53, 2 ** 62)) * 2 + 1 if v else v for v in t[1]]
+            if not any(v for t in s["terms"] for v in t[1]) and s["terms"]:
+                s["terms"][0][1] = [2 ** 53 + 1]
         p = gen.materialize(s)
         ctx.evaluations += 1
         try:
